@@ -11,14 +11,18 @@ META = dict(
     module="scenarios.c04_prices", level="model_checking",
     bounds=dict(
         quick="one accepted order of each of the 8 classes, then 2 bars with symbolic OHLC; infinite liquidity at "
-              "precisions (8,2) and (0,2) with SYMBOLIC amount and prices; VolumeShareImpact(25 %, 10 %) with the bar "
-              "volume from {10, 127.83333333, 100000} and the amount from {one unit multiple, 2.5 / 3, 1000} (slippage is "
-              "cubic in amount and price otherwise), prices symbolic; percentage fee with minimum; completeness clause "
-              "with ample funds (1e15 of every symbol) under infinite liquidity",
-        thorough="adds fee scheme none, precisions (2,0),(8,8), 3 bars, volumes {0, 1, 33.33333333}"),
+              "precisions (8,2) and (0,2) with SYMBOLIC amount and prices; VolumeShareImpact(25 %, 10 %) at precision "
+              "(0,2): limit / stop-limit orders over 2 bars with volumes {10, 127.83333333} and market / stop orders "
+              "over 1 bar with volumes {10, 127.83333333, 100000}, amount from {3, 1, 1000} (slippage is cubic in amount "
+              "and price otherwise), prices symbolic; percentage fee with minimum; completeness clause with ample funds "
+              "(1e15 of every symbol) under infinite liquidity",
+        thorough="adds VolumeShareImpact at (8,2) and with volumes {0, 1, 33.33333333, 100000}, fee scheme none, "
+                 "precisions (2,0),(8,8), 3 bars"),
     stubs=[s for s in hist.BASE_STUBS if "max/min" not in s] + ["max/min are NOT merged in this check (plain forks keep "
                                                                  "the price term a simple variable)"],
     assumptions=["exact decimals (see C01); 'up to rounding to quote precision' = half a quote unit per fill",
+                 "completeness clause: amounts >= 1 whole base unit (fills whose quote amount rounds to zero are ignored "
+                 "by design)",
                  "valid bars; prices >= one quote unit"],
     outside=["more than 2 (3) bars per order", "symbolic volume x symbolic amount x symbolic price jointly (z3 NIA "
              "returns unknown; the volume comes from a solver-chosen set)"],
@@ -39,6 +43,11 @@ def one_order(ctx, kind="limit", side="buy", nbars=2, ample=False, **cfg):
     sym_amount = cfg.get("liq", "inf") == "inf"
     w = World(ctx, props=(), sym_amount=sym_amount, merge_minmax=False, init=init, subscribe=False, amount_hi=10 ** 9,
               namounts=3, **cfg)
+    if ample:
+        # completeness is asserted for non-degenerate orders: a fill whose quote amount rounds to zero is ignored by
+        # design (tests/test_backtesting_exchange.py::test_small_fill_is_ignored_after_rounding); with prices >= one
+        # quote unit an amount >= 1 whole base unit keeps every notional >= one quote unit
+        w.amount_lo = 10 ** w.bp
     b, pre = w.feed_bar("b0")
     sd = BUY if side == "buy" else SELL
     oid = w.place("o1", kind=kind, side=sd)
@@ -141,18 +150,24 @@ VOLS = ["10", "127.83333333", "100000"]
 
 def jobs(tier):
     js = []
-    cfgs = [dict(bp=8, qp=2), dict(bp=0, qp=2), dict(bp=8, qp=2, liq="vsi", vols=VOLS),
-            dict(bp=0, qp=2, liq="vsi", vols=VOLS)]
-    if tier == "thorough":
-        cfgs += [dict(bp=8, qp=2, fee="none"), dict(bp=2, qp=0), dict(bp=8, qp=8),
-                 dict(bp=0, qp=2, liq="vsi", vols=["0", "1", "33.33333333"])]
-    nb = 2 if tier == "quick" else 3
-    for cfg in cfgs:
-        for kind in KINDS:
+
+    def add(cfg, kinds=KINDS, nb=2, split=0):
+        for kind in kinds:
             for side in ("buy", "sell"):
                 name = "%s %s %s" % (kind, side, " ".join("%s=%s" % kv for kv in sorted(cfg.items())))
                 js.append(Job(name, "one_order", dict(kind=kind, side=side, nbars=nb, **cfg), max_paths=100000,
-                              validate_every=40, sample_every=100, prove_timeout=30000))
+                              validate_every=40, sample_every=100, prove_timeout=30000, split=split))
+    add(dict(bp=8, qp=2))
+    add(dict(bp=0, qp=2))
+    # partial fills (limit / stop-limit) against off-grid liquidity; fill-or-kill kinds need one bar only
+    add(dict(bp=0, qp=2, liq="vsi", vols=["10", "127.83333333"]), kinds=["limit", "stop_limit"], split=48)
+    add(dict(bp=0, qp=2, liq="vsi", vols=VOLS), kinds=["market", "stop"], nb=1)
+    if tier == "thorough":
+        add(dict(bp=8, qp=2, liq="vsi", vols=VOLS), split=48)
+        add(dict(bp=0, qp=2, liq="vsi", vols=["0", "1", "33.33333333", "100000"]), split=48)
+        add(dict(bp=8, qp=2, fee="none"), nb=3)
+        add(dict(bp=2, qp=0), nb=3)
+        add(dict(bp=8, qp=8), nb=3)
     for kind in ("market", "limit", "stop"):
         for side in ("buy", "sell"):
             js.append(Job("completeness %s %s" % (kind, side), "one_order",
